@@ -78,6 +78,64 @@ func (b *verifC16ABody) Read(p []byte) (int, error) {
 func (b *verifC16ABody) Close() error { b.closed = true; return nil }
 
 func VerifC16NewAsync(flavours []string, withTracer bool) *VerifC16Async {
+	return VerifC16NewAsyncShapes(flavours, nil, withTracer)
+}
+
+// verifC16AEmpty: a body reader without data (the first Read returns EOF).
+type verifC16AEmpty struct{ closed bool }
+
+func (b *verifC16AEmpty) Read([]byte) (int, error) {
+	if b.closed {
+		return 0, errors.New("verif: read on closed body")
+	}
+	return 0, io.EOF
+}
+func (b *verifC16AEmpty) Close() error { b.closed = true; return nil }
+
+// VerifC16AShapes: the SHAPE of the response the scripted transport answers with, as net/http's
+// transports hand them out: "data" (or ""): a reader with three bytes, length unknown;
+// "empty": a reader whose first Read is EOF; "nobody": http.NoBody, length unknown made 0;
+// "cl0": http.NoBody with "Content-Length: 0"; "204" / "304": that status, http.NoBody;
+// "head": the request is a HEAD, the response announces a length and has http.NoBody;
+// "h2es": HTTP/2, END_STREAM on the HEADERS frame (http.NoBody, length 0, no Content-Length).
+var VerifC16AShapes = []string{"data", "empty", "nobody", "cl0", "204", "304", "head", "h2es"}
+
+func verifC16AStatus(k int, shape string) int {
+	switch shape {
+	case "204":
+		return http.StatusNoContent
+	case "304":
+		return http.StatusNotModified
+	}
+	return 200 + k
+}
+
+func verifC16AResponse(r *http.Request, id int, shape string) *http.Response {
+	resp := &http.Response{
+		Status: "200 OK", StatusCode: verifC16AStatus(id, shape), Proto: "HTTP/1.1", ProtoMajor: 1, ProtoMinor: 1,
+		Header: http.Header{}, ContentLength: -1, Request: r,
+	}
+	switch shape {
+	case "empty":
+		resp.Body = &verifC16AEmpty{}
+	case "nobody", "204", "304":
+		resp.Body, resp.ContentLength = http.NoBody, 0
+	case "cl0":
+		resp.Body, resp.ContentLength = http.NoBody, 0
+		resp.Header.Set("Content-Length", "0")
+	case "head":
+		resp.Body, resp.ContentLength = http.NoBody, 3
+		resp.Header.Set("Content-Length", "3")
+	case "h2es":
+		resp.Body, resp.ContentLength = http.NoBody, 0
+		resp.Proto, resp.ProtoMajor, resp.ProtoMinor = "HTTP/2.0", 2, 0
+	default:
+		resp.Body = &verifC16ABody{data: []byte("abc")}
+	}
+	return resp
+}
+
+func VerifC16NewAsyncShapes(flavours []string, shapes []string, withTracer bool) *VerifC16Async {
 	v := &VerifC16Async{Settle: 20 * time.Millisecond, PeekT: 15 * time.Millisecond, JoinT: 10 * time.Second}
 	if withTracer {
 		v.inner = &tracer.Tracer{}
@@ -87,10 +145,7 @@ func VerifC16NewAsync(flavours []string, withTracer bool) *VerifC16Async {
 			return nil, errors.New("verif: scripted transport failure")
 		}
 		id, _ := strconv.Atoi(r.Header.Get("X-Verif-Id"))
-		return &http.Response{
-			Status: "200 OK", StatusCode: 200 + id, Proto: "HTTP/1.1", ProtoMajor: 1, ProtoMinor: 1,
-			Header: http.Header{}, Body: &verifC16ABody{data: []byte("abc")}, ContentLength: -1, Request: r,
-		}, nil
+		return verifC16AResponse(r, id, r.Header.Get("X-Verif-Shape")), nil
 	}), v.inner)
 	for k, fl := range flavours {
 		c := &verifC16ACall{k: k, name: "verif/call-" + strconv.Itoa(k), fail: fl == "fail", bare: fl == "bare"}
@@ -108,6 +163,12 @@ func VerifC16NewAsync(flavours []string, withTracer bool) *VerifC16Async {
 		if c.fail {
 			c.req.Header.Set("X-Verif-Fail", "1")
 		}
+		if k < len(shapes) && shapes[k] != "" {
+			c.req.Header.Set("X-Verif-Shape", shapes[k])
+			if shapes[k] == "head" {
+				c.req.Method = http.MethodHead
+			}
+		}
 		v.inner.Init(c.name)
 		v.calls = append(v.calls, c)
 	}
@@ -124,7 +185,9 @@ func verifC16ATraceNum(tr *tracer.Trace) string {
 	}
 	cause := 0
 	switch {
-	case tr.Response != nil && tr.Response.StatusCode != 200+k:
+	case tr.Request == nil || tr.Request.Header.Get("X-Verif-Id") != strconv.Itoa(k):
+		return "T?request"
+	case tr.Response != nil && tr.Response.StatusCode != verifC16AStatus(k, tr.Request.Header.Get("X-Verif-Shape")):
 		return "T?status:" + strconv.Itoa(tr.Response.StatusCode)
 	case tr.Response != nil && tr.Err == nil:
 		cause = 1
